@@ -80,13 +80,33 @@ def r2(ctx):
         n += 1
         if '__set__' in ci.methods:
             f = ci.methods['__set__']
-            last = f.node.body[-1]
-            direct = [st for st in stmts_of(f.node) if isinstance(st, ast.Assign) and isinstance(st.targets[0], ast.Subscript)
-                      and '__dict__' in norm(st.targets[0])]
-            if not direct and norm(last).replace(' ', '') == 'super().__set__(instance,value)':
-                ctx.ok(f'{ci.name}.__set__', 'coerces then delegates to the validating __set__')
+            # an override may coerce or copy the value, but whatever reaches instance.__dict__ has been validated: either
+            # every normal exit passes through the validating base __set__, or each direct store is dominated by a
+            # self._validate call on the value it stores (a copy/conversion of it included)
+            from ..cfg import EXIT
+            ocfg = CFG(f.node, exceptions=False)
+            direct = [i for i, st in ocfg.stmt.items() if ocfg.kind[i] == 'stmt' and isinstance(st, ast.Assign)
+                      and isinstance(st.targets[0], ast.Subscript) and '__dict__' in norm(st.targets[0])]
+            supers = [i for i, st in ocfg.stmt.items() if ocfg.kind[i] == 'stmt' and any(
+                norm(c.func).replace(' ', '') == 'super().__set__' for c in calls_in(st))]
+            ok = True
+            why = ''
+            for i in direct:
+                st = ocfg.stmt[i]
+                stored = {x.id for x in ast.walk(st.value) if isinstance(x, ast.Name)}
+                vals_ = [j for j, s2 in ocfg.stmt.items() if ocfg.kind[j] == 'stmt' and any(
+                    (call_name(c) or '') == 'self._validate' and c.args and isinstance(c.args[0], ast.Name)
+                    and c.args[0].id in stored for c in calls_in(s2))]
+                if not (vals_ and ocfg.must_pass([i], vals_)):
+                    ok = False
+                    why = f'`{norm(st)[:70]}` is reached without self._validate of the stored value'
+            if not direct and not (supers and ocfg.must_pass([EXIT], supers)):
+                ok = False
+                why = 'a normal exit is reached without a store through the validating base __set__'
+            if ok:
+                ctx.ok(f'{ci.name}.__set__', 'coerces/copies, and every store is validated (base __set__ or dominating _validate)')
             else:
-                ctx.bad(f'{ci.name}.__set__', 'override', 'override stores directly or does not end in super().__set__', f.loc())
+                ctx.bad(f'{ci.name}.__set__', 'override', f'override can store an unvalidated value: {why}', f.loc())
         v = ci.methods.get('_validate')
         if v is None:
             ctx.bad(f'{ci.name}._validate', 'missing', 'descriptor without its own _validate', ci.path)
